@@ -6,6 +6,7 @@
 //     smallest window of the whole capacity that changed (so a write outside
 //     the frame, or any write on an ErrPayloadTooBig path, is visible),
 //   - what the library's own getters read back from the result.
+//
 // The Coq model (coq/Model/Encode*.v) must produce the identical line.  An
 // independent mini-decoder written here (refdec.go) decodes the produced
 // bytes and compares them with the supplied values (Go-side oracle, `viol`).
@@ -200,10 +201,13 @@ var violCount = map[string]int{}
 
 // viol records a Go-side oracle violation (at most 3 per key per run; the rest is counted)
 func viol(key, desc string, kind string, a []string) {
+	sharedMu.Lock()
 	violCount[key]++
+	n := violCount[key]
+	sharedMu.Unlock()
 	theRun.Stat("oracle."+key, 1)
-	if violCount[key] <= 3 {
-		theRun.Viol(key, desc, kind+" "+strings.Join(a, " "))
+	if n <= 3 {
+		theRun.Viol(key, desc+concTag(), concPrefix()+kind+" "+strings.Join(a, " "))
 	}
 }
 
@@ -342,6 +346,8 @@ var session *packet.Session
 
 func parseClass(frame []byte) string {
 	return g(func() string {
+		sharedMu.Lock() // Session.Parse is not an encoder: serialised while the concurrent kind runs
+		defer sharedMu.Unlock()
 		if session == nil {
 			session, _ = lib.NewSession()
 		}
@@ -503,10 +509,11 @@ func main() {
 	r.Register("ip4pl", runIP4Pl)
 	r.Register("udp", runUDP)
 	r.Register("udppl", runUDPPl)
-	r.Register("frame4", runFrame4)
+	r.Register("frame4", rec("frame4", runFrame4))
 	registerMore(r)
 	registerPad(r)
 	registerReuse(r)
+	r.Register("concrace", runConcRace)
 	if r.Replayed() {
 		return
 	}
@@ -579,6 +586,10 @@ func main() {
 		if i%8 == 0 {
 			g.padCase(g.plenFor(packet.EthMaxSize, 42))
 		}
+	}
+	runConc(r, 8)
+	if r.Thorough() {
+		raceRun(r)
 	}
 	r.Sample("frame4 64 0 7 001122334455 665544332211 64 c0a80001 c0a80002 68 67 aabbcc => 45-byte frame, DHCP4 class 10")
 }
